@@ -163,7 +163,50 @@ theorem init_creates_only_missing (s : Shape) :
   have := List.all_eq_true.mp h s (mem_allShapes s)
   simpa using this
 
+/-- what `initFrameB` says of a file that is neither settings.yaml nor the legacy CSV: it is still there, same content -/
+private theorem initFrameB_keeps [DecidableEq κ] {fs₀ fs : FS κ} (h : initFrameB fs₀ fs = true) {p : Path} {c : Content κ}
+    (hm : (p, Node.file c) ∈ fs₀) (h1 : p.rel ≠ .settings) (h2 : p.rel ≠ .csv) : fileAt fs p = some c := by
+  have := List.all_eq_true.mp h _ hm
+  simpa [h1, h2] using this
+
+set_option maxRecDepth 100000 in
+/-- C20 `init` "keeps each of them" in a folder that also holds a file which is NOT one of tally's rules / settings / statements: with a
+    `.gitignore` of the user's (any content — the model does not look inside), over all budget shapes, `tally init` keeps every existing
+    file (settings may only gain appended lines; the CSV may move to a fresh backup name). -/
+theorem init_frame_with_gitignore (s : Shape) :
+    initFrameB (s.fsWith true id : FS Sym) (complete .repaired .init (s.fsWith true id)).fs = true := by
+  have h : (allShapes.all fun s =>
+      initFrameB (s.fsWith true id : FS Sym) (complete .repaired .init (s.fsWith true id)).fs) = true := by decide +kernel
+  exact List.all_eq_true.mp h s (mem_allShapes s)
+
+/-- … the `.gitignore` included: `init` leaves it byte-identical (it is not appended to, unlike settings.yaml). -/
+theorem init_keeps_gitignore (s : Shape) :
+    fileAt (complete .repaired .init (s.fsWith true id : FS Sym)).fs ⟨.top, .gitignore⟩ = some [.orig .gitignore { kind := .other }] := by
+  apply initFrameB_keeps (init_frame_with_gitignore s)
+  · simp [Shape.fsWith, optFile]
+  · decide
+  · decide
+
+/-- the read-only commands and `up` in such a folder: `readonly_frame` is about arbitrary file systems, so the user's `.gitignore`
+    (and a `views_file:` reference to a file that does not exist) is covered; spelled out for the record -/
+theorem readonly_keeps_gitignore (v : Variants) (p : Prog) (hp : p = .readOnly ∨ p = .up) (s : Shape) (g : Bool) :
+    lookup (complete v p (s.fsWith g id : FS Sym)).fs ⟨.top, .gitignore⟩ = lookup (s.fsWith g id : FS Sym) ⟨.top, .gitignore⟩ := by
+  apply readonly_frame v p hp
+  · intro h
+    exfalso
+    revert h
+    have : (allShapes.all fun s => bools.all fun g => !isDir (s.fsWith g id : FS Sym) ⟨.tally, .configDir⟩) = true := by decide +kernel
+    have h2 := List.all_eq_true.mp (List.all_eq_true.mp this s (mem_allShapes s)) g (mem_bools g)
+    simpa using h2
+  · unfold outputPaths
+    split
+    · simp
+    · simp only [List.mem_cons, List.not_mem_nil, or_false, not_or]
+      constructor <;> (intro h; cases h)
+
 /-! non-vacuity -/
+example : fileAt ((⟨.plain, .absent, true, false, false, false, true⟩ : Shape).fsWith true id : FS Sym) ⟨.top, .gitignore⟩
+    = some [.orig .gitignore { kind := .other }] := by decide
 example : WF ((⟨.plain, .withRules, false, false, false, false, true⟩ : Shape).fs id : FS Sym) := by
   intro h; revert h; decide
 example : (⟨.top, .settings⟩ : Path) ∉ outputPaths ((⟨.plain, .withRules, false, false, false, false, true⟩ : Shape).fs id : FS Sym) := by
